@@ -773,11 +773,61 @@ class Inliner:
             i += 1
         return changed
 
+    def _namedtuple_calls_to_tuples(self):
+        """`K(a=x, b=y)` for a new, method-less typing.NamedTuple class K is the tuple `(x, y)` in field order (what every consumer that unpacks or
+        indexes it sees)"""
+        changed = False
+        for mname, m in self.modules.items():
+            nts = {}
+            for st in m.tree.body:
+                if isinstance(st, ast.ClassDef) and not st.decorator_list and len(st.bases) == 1 and \
+                        (ast.unparse(st.bases[0]) in ('NamedTuple', 'typing.NamedTuple')) and not any(p_.startswith(f'{mname}:{st.name}.') for p_ in self.pinned):
+                    fields, defaults, ok = [], {}, True
+                    for s2 in st.body:
+                        if isinstance(s2, ast.AnnAssign) and isinstance(s2.target, ast.Name):
+                            fields.append(s2.target.id)
+                            if s2.value is not None:
+                                defaults[s2.target.id] = s2.value
+                        elif isinstance(s2, ast.Expr) and isinstance(s2.value, ast.Constant):
+                            pass
+                        else:
+                            ok = False
+                    if ok and fields:
+                        nts[st.name] = (fields, defaults)
+            if not nts:
+                continue
+
+            class Tr(ast.NodeTransformer):
+                def visit_Call(self, n):
+                    self.generic_visit(n)
+                    if isinstance(n.func, ast.Name) and n.func.id in nts and not any(isinstance(a, ast.Starred) for a in n.args) \
+                            and all(k.arg is not None for k in n.keywords):
+                        fields, defaults = nts[n.func.id]
+                        vals = dict(zip(fields, n.args))
+                        for k in n.keywords:
+                            vals[k.arg] = k.value
+                        for f_ in fields:
+                            if f_ not in vals and f_ in defaults:
+                                vals[f_] = copy.deepcopy(defaults[f_])
+                        if set(vals) == set(fields):
+                            nonlocal changed
+                            changed = True
+                            return ast.copy_location(ast.Tuple(elts=[vals[f_] for f_ in fields], ctx=ast.Load()), n)
+                    return n
+            Tr().visit(m.tree)
+            if changed:
+                self.log.append(f'{mname}: constructor calls of the NamedTuple class(es) {sorted(nts)} read as tuples')
+        return changed
+
     def run(self):
+        nt_changed = self._namedtuple_calls_to_tuples()
         cands = self.discover()
         self._find_records()
         if not cands and not self.records:
-            return False
+            if nt_changed:
+                for m in self.modules.values():
+                    ast.fix_missing_locations(m.tree)
+            return nt_changed
         self._unalias_helper_values()
         any_change = False
         for _round in range(3):
@@ -801,6 +851,7 @@ class Inliner:
             # helpers may have had inner helper calls expanded: refresh their prepared bodies
             for k, h in list(self.helpers.items()):
                 self.helpers[k] = _Helper(h.modname, h.qual, h.node, h.cls_name)
+        any_change = any_change or nt_changed
         if any_change:
             self._scalarise_records()
             self._drop_fully_inlined()
